@@ -229,6 +229,11 @@ func genFaults(cfg simkit.RunConfig, backend string) *Scenario {
 		if r2.Intn(3) == 0 {
 			sc.Net.Plan[fmt.Sprintf("ord:0:%s+%d", mark, r2.Intn(maxFaultPos))] = pick(r2, commitFaults)
 		}
+		// a rare answer of the store at one more position (own stream): an executed request answered
+		// "result undetermined", a definite refusal, or one of the refusals that are retried
+		if r3 := simkit.Rand(cfg.Seed, "rare"); r3.Intn(2) == 0 {
+			sc.Net.Plan[fmt.Sprintf("ord:0:%s+%d", mark, r3.Intn(maxFaultPos))] = pick(r3, rareFaults)
+		}
 	}
 	return sc
 }
